@@ -397,11 +397,11 @@ def gen_forest(rng, n, ntrees=1):
     return dict(ids=[ids[i] for i in order], parents=[parents[i] for i in order], xyz=[xyz[i] for i in order])
 
 
-def make_neuron(f):
+def make_neuron(f, units=None):
     xyz = np.array(f['xyz'], dtype=float).reshape(-1, 3)
     df = pd.DataFrame({'node_id': np.array(f['ids'], dtype=np.int64), 'parent_id': np.array(f['parents'], dtype=np.int64),
                        'x': xyz[:, 0], 'y': xyz[:, 1], 'z': xyz[:, 2], 'radius': 0.01})
-    return navis.TreeNeuron(df)
+    return navis.TreeNeuron(df, units=units) if units else navis.TreeNeuron(df)
 
 
 def fresh_of(x):
@@ -420,9 +420,14 @@ READS = ['graph', 'igraph', 'segments', 'small_segments', 'geodesic_matrix', 'ca
 INPLACE_OPS = ['reroot', 'reroot_m', 'reroot_multi', 'prune_twigs', 'prune_twigs_m', 'subset', 'subset_pf', 'downsample',
                'downsample_m', 'downsample_inf', 'resample', 'resample_m', 'imul', 'idiv', 'iadd', 'isub', 'remove_nodes',
                'insert_nodes', 'rewire', 'heal', 'prune_depth', 'prune_strahler', 'longest', 'despike', 'smooth',
-               'prune_distal', 'prune_proximal', 'dist_to_root', 'distal_to', 'dist_between', 'cut']
+               'prune_distal', 'prune_proximal', 'dist_to_root', 'distal_to', 'dist_between', 'cut',
+               'despike_rev', 'despike5', 'despike_rev5', 'smooth5', 'convert_units']
 COPY_OPS = ['reroot', 'prune_twigs', 'subset', 'downsample', 'resample', 'mul', 'div', 'add', 'sub', 'remove_nodes',
-            'heal', 'prune_strahler', 'longest', 'cut', 'prune_depth', 'prune_twigs_m', 'reroot_m']
+            'heal', 'prune_strahler', 'longest', 'cut', 'prune_depth', 'prune_twigs_m', 'reroot_m',
+            'despike', 'despike_rev', 'despike_rev5', 'smooth', 'convert_units', 'prune_distal', 'prune_proximal']
+# calls of @lock_neuron functions that raise (the caller catches the exception and keeps using the neuron)
+FAIL_OPS = ['fail_reroot_id', 'fail_reroot_tag', 'fail_reroot_method', 'fail_dist_between', 'fail_distal_to',
+            'fail_subset', 'fail_subset_copy', 'fail_segment_length', 'fail_reroot_copy']
 EDITS = ['edit_xyz', 'edit_xyz', 'edit_radius', 'edit_parent', 'replace_same', 'replace_shuffle', 'replace_xyz',
          'replace_drop_leaf', 'save', 'restore_replace', 'restore_inplace']
 
@@ -446,6 +451,8 @@ def gen_events(rng, n_events, focus=None):
             evs.append(dict(ev='op', op=rng.choice(INPLACE_OPS), a=a, b=b, c=c))
         elif r < 0.70:
             evs.append(dict(ev='opcopy', op=rng.choice(COPY_OPS), a=a, b=b, c=c, follow=rng.random() < 0.6))
+        elif r < 0.75:
+            evs.append(dict(ev='failop', op=rng.choice(FAIL_OPS), a=a, b=b, c=c))
         elif r < 0.88:
             evs.append(dict(ev=rng.choice(EDITS), a=a, b=b, c=c))
         elif r < 0.93:
@@ -524,8 +531,18 @@ def apply_op(x, op, a, b, c, inplace):
         return navis.longest_neurite(x, 1, reroot_soma=False, **kw) or x
     if op == 'despike':
         return navis.despike_skeleton(x, sigma=2, **kw) or x
+    if op == 'despike_rev':
+        return navis.despike_skeleton(x, sigma=2, reverse=True, **kw) or x
+    if op == 'despike5':
+        return navis.despike_skeleton(x, **kw) or x
+    if op == 'despike_rev5':
+        return navis.despike_skeleton(x, max_spike_length=2, reverse=True, **kw) or x
     if op == 'smooth':
         return navis.smooth_skeleton(x, window=3, **kw) or x
+    if op == 'smooth5':
+        return navis.smooth_skeleton(x, **kw) or x
+    if op == 'convert_units':
+        return x.convert_units(['um', 'nm'][a % 2], **kw) or x
     if op == 'prune_distal':
         return x.prune_distal_to(pick(ids, a), **kw) or x
     if op == 'prune_proximal':
@@ -545,6 +562,40 @@ def apply_op(x, op, a, b, c, inplace):
     raise KeyError(op)
 
 
+def apply_fail(x, op, a, b):
+    """A call of a @lock_neuron function that is expected to raise.  Returns the exception type name (or 'no-raise')."""
+    ids = x.nodes.node_id.values
+    missing = int(max(ids)) + 1000 + a % 7
+    try:
+        if op == 'fail_reroot_id':
+            navis.reroot_skeleton(x, missing, inplace=True)
+        elif op == 'fail_reroot_tag':
+            navis.reroot_skeleton(x, 'no-such-tag', inplace=True)
+        elif op == 'fail_reroot_method':
+            x.reroot('soma', inplace=True)
+        elif op == 'fail_reroot_copy':
+            navis.reroot_skeleton(x, missing, inplace=False)
+        elif op == 'fail_dist_between':
+            GU.dist_between(x, pick(ids, b), missing)
+        elif op == 'fail_distal_to':
+            GU.distal_to(x, missing, pick(ids, b))
+        elif op == 'fail_subset':
+            navis.subset_neuron(x, 5.5, inplace=True)
+        elif op == 'fail_subset_copy':
+            navis.subset_neuron(x, 5.5, inplace=False)
+        elif op == 'fail_segment_length':
+            GU.segment_length(x, [missing, pick(ids, b)])
+        else:
+            raise KeyError(op)
+    except KeyError as e:
+        if e.args and e.args[0] == op:
+            raise
+        return 'KeyError'
+    except Exception as e:
+        return type(e).__name__
+    return 'no-raise'
+
+
 class Run:
     """One history on one real neuron, checked event by event."""
 
@@ -552,7 +603,7 @@ class Run:
         self.ctx, self.case, self.spec = ctx, case, spec
         TR.install(spec)
         TR.reset(spec)
-        self.x = make_neuron(case['forest'])
+        self.x = make_neuron(case['forest'], case.get('units'))
         TR.track(self.x)
         self.saved = None
         self.checked = 0        # number of primitive events already compared for the current object
@@ -640,6 +691,10 @@ class Run:
                 if not s_['t']:
                     self.type_taint = True
         st = states[-1]
+        # every top-level event is complete here (failed calls included): the lock must have been released.  The Lean
+        # theorem `failed_call_releases_lock` says so for the model; this is the same statement on the real object.
+        ctx.corr(f"_lock={int(x.__dict__.get('_lock', 0))}", '_lock=0',
+                 f'lock counter after a completed top-level event ({label}): a @lock_neuron call that raised did not release the lock', case)
         stamp_cur = (not st['stale']) and st['lock'] == 0 and st['m']
         # 2. Inv on the implementation: stamp current => every cache entry equals the fresh view
         if stamp_cur:
@@ -722,7 +777,7 @@ class Run:
         if n == 0:
             ctx.count('event', 'skipped-empty')
             return
-        ctx.count('event', kind if kind not in ('op', 'opcopy') else f"{kind}:{e['op']}")
+        ctx.count('event', kind if kind not in ('op', 'opcopy', 'failop') else f"{kind}:{e['op']}")
         if kind == 'read':
             if e['view'] == 'simple' and '_simple' not in x.__dict__:
                 self.radius_dirty = False
@@ -738,6 +793,8 @@ class Run:
                     self.switch(r)
             except Exception as ex:
                 ctx.count('op_error', f"{e['op']}:{type(ex).__name__}")
+        elif kind == 'failop':
+            ctx.count('failed_call', f"{e['op']}:{apply_fail(x, e['op'], e['a'], e['b'])}")
         elif kind == 'opcopy':
             try:
                 r = apply_op(x, e['op'], e['a'], e['b'], e['c'], False)
@@ -856,9 +913,41 @@ CORPUS = [
     dict(forest=F6, events=[R(v) for v in READS] + [dict(ev='edit_xyz', a=5, b=2, c=2)] + [R(v) for v in READS]
          + [dict(ev='op', op='prune_twigs', a=0, b=0, c=0)] + [R(v) for v in READS], name='warm-all'),
     dict(forest=F6, events=[R('simple'), dict(ev='edit_radius', a=1, b=0, c=0), R('simple')], name='simple-radius'),
+    # a @lock_neuron call raises, the caller goes on: warm -> failed call -> edit -> read
+    dict(forest=F6, events=[R('graph'), R('cable_length'), R('segments'), dict(ev='failop', op='fail_reroot_method', a=0, b=0, c=0),
+                            dict(ev='edit_xyz', a=1, b=1, c=2), R('cable_length'), R('graph'),
+                            dict(ev='replace_drop_leaf', a=0, b=0, c=0), R('segments')], name='failed-reroot-then-edit'),
+    dict(forest=F6, events=[R('igraph'), R('geodesic_matrix'), dict(ev='failop', op='fail_dist_between', a=1, b=2, c=0),
+                            dict(ev='op', op='imul', a=0, b=0, c=0), R('geodesic_matrix'), R('igraph')], name='failed-dist-then-mul'),
+    dict(forest=F6, events=[R('small_segments'), dict(ev='failop', op='fail_subset', a=0, b=0, c=0),
+                            dict(ev='op', op='prune_twigs', a=0, b=0, c=0), R('small_segments'), R('simple')], name='failed-subset-then-prune'),
+    # operations that pass a non-empty `exclude`
+    dict(forest=F6, events=[R('segments'), R('small_segments'), dict(ev='op', op='despike_rev', a=0, b=0, c=0), R('segments'),
+                            R('small_segments'), dict(ev='opcopy', op='despike_rev', a=0, b=0, c=0, follow=True), R('segments')],
+         name='despike-reverse'),
     dict(forest=F6, events=[R('graph'), R('segments'), dict(ev='edit_xyz', a=1, b=0, c=0), dict(ev='copy', follow=True), R('graph'),
                             R('segments'), dict(ev='pickle'), R('igraph'), R('graph')], name='copy-stale'),
 ]
+
+
+F9 = dict(ids=[10, 11, 12, 13, 14, 15, 16, 17, 18], parents=[-1, 10, 11, 12, 13, 14, 12, 16, 17],
+          xyz=[[0, 0, 0], [10, 0, 0], [20, 0, 0], [30, 120, 0], [40, 0, 0], [50, 0, 0], [20, 10, 0], [20, 20, 0], [20, 30, 0]])
+WARM = ['segments', 'small_segments', 'graph', 'igraph', 'cable_length', 'geodesic_matrix', 'simple']
+
+
+def sweep_cases(forests, ops_inplace, ops_copy, fail_ops):
+    """warm every cache -> one catalogue operation (or failed call + edit) -> read every view: one history per operation"""
+    warm = [dict(ev='read', view=v) for v in WARM]
+    for fi, f in enumerate(forests):
+        for op in ops_inplace:
+            yield dict(kind='history', forest=f, units='8 nm', name=f'sweep-{op}-inplace-{fi}',
+                       events=warm + [dict(ev='op', op=op, a=3 + fi, b=5, c=1)] + warm)
+        for op in ops_copy:
+            yield dict(kind='history', forest=f, units='8 nm', name=f'sweep-{op}-copy-{fi}',
+                       events=warm + [dict(ev='opcopy', op=op, a=3 + fi, b=5, c=1, follow=True)] + warm)
+        for op in fail_ops:
+            yield dict(kind='history', forest=f, name=f'sweep-{op}-{fi}',
+                       events=warm + [dict(ev='failop', op=op, a=1, b=2, c=0), dict(ev='edit_xyz', a=1, b=1, c=2)] + warm)
 
 
 def run(ctx):
@@ -880,7 +969,15 @@ def run(ctx):
             ctx.case(case)
             run_case(ctx, case, spec)
     r = ctx.rng
-    nhist = ctx.budget(70, 420)
+    # one history per catalogue operation (quick: a seeded third of the catalogue on one tree; thorough: all, two trees)
+    if ctx.quick():
+        sw = list(sweep_cases([F9], r.sample(INPLACE_OPS, 8) + ['despike_rev'], r.sample(COPY_OPS, 4), r.sample(FAIL_OPS, 3)))
+    else:
+        sw = list(sweep_cases([F9, F6], INPLACE_OPS, COPY_OPS, FAIL_OPS))
+    for case in sw:
+        ctx.case(case)
+        run_case(ctx, case, spec)
+    nhist = ctx.budget(48, 400)
     for k in range(nhist):
         big = (not ctx.quick()) and r.random() < 0.3
         n = r.randint(3, 25 if big else 12)
@@ -888,6 +985,8 @@ def run(ctx):
         focus = r.choice([None, None, 'undo'])
         case = dict(kind='history', forest=f, events=gen_events(r, r.randint(4, 24 if not ctx.quick() else 14), focus),
                     backend=r.choice(['default'] * 5 + ['nx', 'py', 'py-nx']))
+        if r.random() < 0.3:
+            case['units'] = r.choice(['8 nm', '1 um'])
         nontrivial = any(e['ev'] != 'read' for e in case['events']) and any(e['ev'] == 'read' for e in case['events'])
         ctx.case(case, nontrivial=nontrivial)
         run_case(ctx, case, spec)
@@ -900,6 +999,11 @@ def search(ctx):
     histories biased to read / change / read."""
     spec = load_spec(ctx)
     r = ctx.rng
+    for case in sweep_cases([F9, F6], INPLACE_OPS, COPY_OPS, FAIL_OPS):
+        ctx.case(case)
+        run_case(ctx, case, spec)
+        if ctx.has_new_failure('oracle'):
+            return
     for c in CORPUS:
         case = dict(kind='history', forest=c['forest'], events=c['events'], name=c['name'] + '-search')
         ctx.case(case)
